@@ -22,6 +22,10 @@ CHECKS = {
  "C07": dict(
     text="Explicit-state BFS over four real scenarios (CP pair, stableswap pair, 3pool, vault), each with a fresh fee collector: operations sized so one charge lands in {0,1,500,999,1000,1001,1e6}; reference ledgers (sums of the charges reported by accepted operations) are compared in every state with pending/all-time/burned queries, collector balance and token supply; every collect is checked for exact transfer, no other recipient, unchanged LP reserves.",
     note="Bounded alphabets/depth 3/4. Collector has no other income by construction.", tech="explicit-state model checking of the implementation (BFS) with reference-ledger ghost state", ref="DESIGN.md §4 C07"),
+ "C06": dict(
+    text="Exhaustive enumeration of the adversary: every borrower script of length <=2 over 11 base behaviours + nested loans (whose callback is again a script of length <=1 quick / <=2 thorough; thorough adds all length-3 scripts) x loan amounts {1,999,1000,1e6,balance,balance+1} x fee triples x {native,cw20} executed on the real vault through a scripted borrower contract, and every vault_router payload of <=2 atoms; per transaction: revert => full-state equality, success => balance growth >= all fees, burn destroyed, ledger growth, LOAN_COUNTER==0, no shares minted, exact payback suffices / one unit less never does, router keeps nothing and forwards the remainder, NextLoan/CompleteLoan guarded.",
+    note="Adversary alphabet is finite (no reply-on-error swallowing). One known finding (inner-loan fees offset the outer repayment) reported as KNOWN-FINDING.",
+    tech="exhaustive fault-sequence enumeration on the implementation (explicit-state, one transaction deep, scripts up to depth 3 with nesting)", ref="DESIGN.md §4 C06"),
 }
 NOT_BUILT = "check not built yet in this round (planned, see DESIGN.md)"
 props = [json.loads(l) for l in open('/verif/properties.jsonl')]
